@@ -355,7 +355,14 @@ func (s *Subscriber) OnSyncFinished() (<-chan SyncFinished, context.CancelFunc) 
 	cq := chanqueue.New[SyncFinished]()
 	ch := cq.In()
 	verifPoint("listen.register", "", cid.Undef)
-	s.addEventChan <- ch
+	select {
+	case s.addEventChan <- ch:
+	case <-s.closing:
+		// The Subscriber is closed, or closing, and may no longer be reading
+		// addEventChan. Return a channel that is already closed.
+		close(ch)
+		return cq.Out(), func() {}
+	}
 	verifPoint("listen.registered", "", cid.Undef)
 
 	cncl := func() {
